@@ -341,7 +341,6 @@ static inline std::string Path101() { std::string p = "p"; for (int i = 1; i < 1
 
 struct Special { const char * name; int flags; };   // flags: 1 = state builder (first command of the quick depth-2 space), 2 = member of the reduced alphabet (depth 3)
 enum { SB = 1, RED = 2 };
-enum { NUM_SPECIALS = 118 };
 // Builds special command s (fresh Message each call); *name receives its text.  Returns a NULL ref for s >= NUM_SPECIALS.
 static inline MessageRef BuildSpecial(int s, std::string * name, int * flags)
 {
@@ -350,7 +349,7 @@ static inline MessageRef BuildSpecial(int s, std::string * name, int * flags)
 #define SPECIAL(NAME, FLAGS, EXPR) if (s == n++) { nm = NAME; fl = FLAGS; m = (EXPR); }
    // ---- SETPARAMETERS
    SPECIAL("SETPARAMETERS SUBSCRIBE:/*/*/*", SB | RED, SubscribeTo("/*/*/*"))
-   SPECIAL("SETPARAMETERS SUBSCRIBE:/*/*/* filter(A)", SB, SubscribeTo("/*/*/*", F_WHAT_A))
+   SPECIAL("SETPARAMETERS SUBSCRIBE:/*/*/* filter(A)", SB | RED, SubscribeTo("/*/*/*", F_WHAT_A))
    SPECIAL("SETPARAMETERS SUBSCRIBE:/*/*/* filter(R)", SB, SubscribeTo("/*/*/*", F_WHAT_R))
    SPECIAL("SETPARAMETERS SUBSCRIBE:/*/*/* quietly", SB, SubscribeTo("/*/*/*", F_ABSENT, true))
    SPECIAL("SETPARAMETERS SUBSCRIBE:/*/*/*/*", SB, SubscribeTo("/*/*/*/*"))
@@ -372,7 +371,7 @@ static inline MessageRef BuildSpecial(int s, std::string * name, int * flags)
    SPECIAL("SETPARAMETERS reflect-to-self", SB, ({ MessageRef p = l1::SetParameters(); l1::AddFlagParam(p, PR_NAME_REFLECT_TO_SELF); p; }))
    SPECIAL("SETPARAMETERS reflect-to-self + max-update-items=1 + SUBSCRIBE:/*/*/*", SB | RED, SelfOneItem("/*/*/*"))
    SPECIAL("SETPARAMETERS reflect-to-self + max-update-items=1 + SUBSCRIBE:/*/*/*/*", SB, SelfOneItem("/*/*/*/*"))
-   SPECIAL("SETPARAMETERS max-update-items=1", SB, Params1(PR_NAME_MAX_UPDATE_MESSAGE_ITEMS, 1))
+   SPECIAL("SETPARAMETERS max-update-items=1", SB | RED, Params1(PR_NAME_MAX_UPDATE_MESSAGE_ITEMS, 1))
    SPECIAL("SETPARAMETERS max-update-items=0", SB, Params1(PR_NAME_MAX_UPDATE_MESSAGE_ITEMS, 0))
    SPECIAL("SETPARAMETERS max-update-items=-1", 0, Params1(PR_NAME_MAX_UPDATE_MESSAGE_ITEMS, -1))
    SPECIAL("SETPARAMETERS max-update-items:string", 0, ({ MessageRef p = l1::SetParameters(); (void) p()->AddString(PR_NAME_MAX_UPDATE_MESSAGE_ITEMS, "1"); p; }))
@@ -398,7 +397,7 @@ static inline MessageRef BuildSpecial(int s, std::string * name, int * flags)
    SPECIAL("REMOVEPARAMETERS SUBSCRIBE:(", 0, l1::RemoveParameters(l1::Keys("SUBSCRIBE:(")))
    // ---- SETDATA
    SPECIAL("SETDATA x=Rich(7)", SB | RED, l1::SetData("x", Rich(7)))
-   SPECIAL("SETDATA new=Rich(7)", SB, l1::SetData("new", Rich(7)))
+   SPECIAL("SETDATA new=Rich(7)", SB | RED, l1::SetData("new", Rich(7)))
    SPECIAL("SETDATA x/y/z/deep=Rich(7)", SB, l1::SetData("x/y/z/deep", Rich(7)))
    SPECIAL("SETDATA x=[Rich(7),Rich(8)] (two values in one field)", SB, ({ MessageRef p = l1::SetData("x", Rich(7)); l1::AddData(p, "x", Rich(8)); p; }))
    SPECIAL("SETDATA x=Rich(7) + new=Rich(8)", SB, ({ MessageRef p = l1::SetData("x", Rich(7)); l1::AddData(p, "new", Rich(8)); p; }))
@@ -415,8 +414,8 @@ static inline MessageRef BuildSpecial(int s, std::string * name, int * flags)
    SPECIAL("SETDATA x=<Message nested 101 deep>", SB, l1::SetData("x", DeepMessage(RICH_WHAT, 101)))
    SPECIAL("SETDATA x=<4 KB raw field>", 0, ({ MessageRef p = l1::NewMsg(RICH_WHAT); std::string big(4096, 'b'); (void) p()->AddData("raw", B_RAW_TYPE, big.data(), (uint32)big.size()); l1::SetData("x", p); }))
    SPECIAL("SETDATA x=Rich(7) flags=quiet", SB, l1::SetData("x", Rich(7), l1::Flags(SETDATANODE_FLAG_QUIET)))
-   SPECIAL("SETDATA new=Rich(7) flags=add-to-index", SB, l1::SetData("xi/new", Rich(7), l1::Flags(SETDATANODE_FLAG_ADDTOINDEX)))
-   SPECIAL("SETDATA x=Rich(7) flags=dont-create-node", 0, l1::SetData("nonesuch", Rich(7), l1::Flags(SETDATANODE_FLAG_DONTCREATENODE)))
+   SPECIAL("SETDATA xi/new=Rich(7) flags=add-to-index", SB, l1::SetData("xi/new", Rich(7), l1::Flags(SETDATANODE_FLAG_ADDTOINDEX)))
+   SPECIAL("SETDATA nonesuch=Rich(7) flags=dont-create-node", 0, l1::SetData("nonesuch", Rich(7), l1::Flags(SETDATANODE_FLAG_DONTCREATENODE)))
    SPECIAL("SETDATA x=Rich(7) flags=dont-overwrite", 0, l1::SetData("x", Rich(7), l1::Flags(SETDATANODE_FLAG_DONTOVERWRITEDATA)))
    SPECIAL("SETDATA x=Rich(7) flags=enable-supercede", SB, l1::SetData("x", Rich(7), l1::Flags(SETDATANODE_FLAG_ENABLESUPERCEDE)))
    SPECIAL("SETDATA x=Rich(7) flags=all bits", 0, ({ SetDataNodeFlags f = SetDataNodeFlags::WithAllBitsSet(); l1::SetData("x", Rich(7), f); }))
@@ -445,7 +444,7 @@ static inline MessageRef BuildSpecial(int s, std::string * name, int * flags)
    SPECIAL("REORDERDATA xi/* -> '' (empty)", 0, l1::ReorderData("xi/*", ""))
    // ---- REMOVEDATA
    SPECIAL("REMOVEDATA x", SB | RED, l1::RemoveData(l1::Keys("x")))
-   SPECIAL("REMOVEDATA xi/*", SB, l1::RemoveData(l1::Keys("xi/*")))
+   SPECIAL("REMOVEDATA xi/*", SB | RED, l1::RemoveData(l1::Keys("xi/*")))
    SPECIAL("REMOVEDATA * quietly", SB, l1::RemoveData(l1::Keys("*"), true))
    SPECIAL("REMOVEDATA [x,xi] (two patterns of equal depth)", SB, l1::RemoveData(l1::Keys("x", "xi")))
    SPECIAL("REMOVEDATA ../../hV/2/vx", 0, l1::RemoveData(l1::Keys("../../hV/2/vx")))
@@ -513,6 +512,7 @@ struct Alphabet {
       for (int c = 0; c < Size(); c++) { const int f = Flags(c); if (f & SB) builders.push_back(c); if (f & RED) reducedCmds.push_back(c); }
    }
    int Size() const { return (int)genWhat.size() + numSpecials; }
+   int FindByName(const std::string & name) const { for (int c = 0; c < Size(); c++) if (Name(c) == name) return c; return -1; }
    bool IsGeneric(int c) const { return c < (int)genWhat.size(); }
 
    int Flags(int c) const
